@@ -1,6 +1,6 @@
 """C15 — A coroutine blocked in a hooked call does not stall its event loop (necessary structure)."""
 from rules.common import start
-from rules import timed, abi, hookrules
+from rules import timed, abi, hookrules, pool
 
 
 def run(tier):
@@ -16,5 +16,8 @@ def run(tier):
     timed.probe_rule(run, f, "C15-NO-RAW-BLOCK")
     hookrules.facade_rule(run, f, "C15-FACADE")
     hookrules.grow_rule(run, f, "C15-GROW")
+    # the pool can only grow while `running` counts live workers and nothing else: a slot that leaks (counted without a
+    # worker, or not returned when a worker ends) makes the pool stop growing before max_size and N sleepers run one after another
+    pool.running_rule(run, f, "C15-WORKER-INC", "C15-WORKER-DEC", "C15-WORKER-RMW")
     abi.forward_rule(run, fx["hook/default"], "C15-FORWARD")
     return run.finish()
